@@ -17,7 +17,16 @@ def run_one(args):
         r = solve.run_solve(d, "c%d" % k, inst, release=rel, timeout=LIMIT, checks=False)
         out["release" if rel else "debug"] = (r["status"], r["panic"])
     res = {"inst": inst, "k": k, "status": "OK" if all(v[0] == "OK" for v in out.values()) else "NOANSWER",
-           "outcomes": out, "js": None, "chk": [], "dstatus": "OK", "impl": []}
+           "outcomes": out, "js": None, "chk": [], "dstatus": "OK", "impl": [], "guard": None}
+    # the model's verdict on the i64 guard of the flow network (FlowGuard.cost_guard over the modelled slot distribution)
+    if True:   # (default depots: the guard does not depend on the HashMap order of the locations; identity if unknown)
+        mpath = os.path.join(d, "c%d.guard.min" % k)
+        with open(mpath, "w") as f:
+            f.write(" ".join(str(x) for x in instgen.encode(inst, r["perm"])) + "\n")
+        mout = os.path.join(d, "c%d.guard.chk" % k)
+        if lib.run_driver("flowcheck", mpath, mout) == "OK":
+            g = [l.split()[2] for l in lib.read_lines(mout) if l.startswith("MGUARD ")]
+            res["guard"] = "PANIC" if "PANIC" in g else ("OK" if g else None)
     return res
 
 
@@ -25,8 +34,16 @@ def failures(pid, inst, r):
     bad = []
     for build, (st, note) in r["outcomes"].items():
         if st != "OK":
-            bad.append(("no-answer-%s-%s" % (build, st),
-                        "%s build: solve_instance %s within %ds wall clock %s" % (build, st, LIMIT, note)))
+            if st == "PANIC" and r.get("guard") == "PANIC" and "min_cost_flow_solver.rs" in note:
+                # the instance class of known finding F2: the MODEL's i64 guard fails for this instance, and the code
+                # panics in the flow-network construction
+                bad.append(("cost-overflow-guard", "%s build: the i64 guard of the flow network fails (model: "
+                                                   "cost_guard = Panic) and solve_instance panics %s" % (build, note)))
+            else:
+                bad.append(("no-answer-%s-%s" % (build, st),
+                            "%s build: solve_instance %s within %ds wall clock %s" % (build, st, LIMIT, note)))
+        elif r.get("guard") == "PANIC":
+            bad.append(("guard-model-differs", "%s build answers although the modelled i64 guard fails" % build))
     return bad
 
 
@@ -35,6 +52,10 @@ def features(inst, r):
     if any(int(s.get("trackCount", 0)) > min([t.get("maximalFormationCount") or 99 for t in inst["vehicleTypes"]])
            for s in (inst.get("maintenanceSlots") or [])):
         f.add("tracks_exceed_formation_limit")
+    if max(inst["parameters"]["costs"].get(k) or 0 for k in ("staff", "serviceTrip", "deadHeadTrip", "idle")) >= 10 ** 9:
+        f.add("huge_cost_rates")
+        if r.get("guard") == "PANIC":
+            f.add("i64_guard_fails")
     if any(sum(1 for d in inst["departures"] for s in d["segments"]) <= 1 for _ in [0]):
         f.add("single_trip")
     for d in inst["departures"]:
@@ -63,6 +84,14 @@ def main(tier, seed):
                 {"seat_dominated": True, "type_limits": "none", "seg_limits": "none", "depots": "zero", "ndeps": 1},
                 {"seat_dominated": True, "type_limits": "none", "seg_limits": "none", "depots": "zero", "ndeps": 2}]
     insts = lib.load_corpus(PID) + [instgen.gen_instance(rng, rng.choice(profiles)) for _ in range(n)]
+    # magnitudes: cost rates of 10^9 .. 10^13 per second (conformant; the plain u64/i64 products stay below 2^63, the
+    # guarded ones do not for the larger rates: known finding F2)
+    for _ in range(max(4, n // 12)):
+        hi = instgen.gen_instance(rng, rng.choice([{"positive_costs": True}, {"positive_costs": True, "slots": "some"},
+                                                   {"positive_costs": True, "depots": "absent"}]))
+        for key in rng.sample(["staff", "serviceTrip", "deadHeadTrip", "idle"], rng.choice([1, 2])):
+            hi["parameters"]["costs"][key] = 10 ** rng.choice([9, 10, 11, 12, 13])
+        insts.append(hi)
     results = lib.pmap(run_one, [(d, k, inst) for k, inst in enumerate(insts)], workers=8)
     return solvefam.conclude(PID, tier, seed, t0, proof, results,
                              "exit status / wall clock of a child process running server::solve_instance, debug "
